@@ -118,14 +118,14 @@ SPEC_NEXT = r"""
                 Value::List(l) => (r, final(scopes).world(), final(names_in_binding)@)
                     == sem_bind_list(old(scopes).world(), old(names_in_binding)@, items@, collect, lhs.1, l.0.0@, bind_type),
                 _ => r is Err && at(r->Err_0, lhs.1) && inner(r->Err_0) is ListDestructureOnNonList,
-            } }), // [C13:a_list_pattern_destructures_a_list_and_any_other_source_kind_or_an_operator_is_an_error]
+            } }), // [C13_C16:a_list_pattern_destructures_a_list_and_any_other_source_kind_or_an_operator_is_an_error]
         lhs.0 matches RawExpr::Object{props} ==> (
             if op is Some { r is Err && at(r->Err_0, lhs.1) && inner(r->Err_0) is OpOnObjectDestructure }
             else { match rhs.v {
                 Value::Object(o) => (r, final(scopes).world(), final(names_in_binding)@)
                     == sem_bind_object(old(scopes).world(), old(names_in_binding)@, props@, o.0.0@, bind_type),
                 _ => r is Err && at(r->Err_0, lhs.1) && inner(r->Err_0) is ObjectDestructureOnNonObject,
-            } }), // [C13:an_object_pattern_destructures_an_object_and_any_other_source_kind_or_an_operator_is_an_error]
+            } }), // [C13_C16:an_object_pattern_destructures_an_object_and_any_other_source_kind_or_an_operator_is_an_error]
         // ---- element / property targets: kind checks, index bound check, op on a missing key
         lhs.0 matches RawExpr::Index{expr, location} ==> (match sem_expr(old(scopes).world(), *expr).0 {
             Err(_) => r is Err,
@@ -293,3 +293,5 @@ def replays(failed):
     yield ("index write on a non-container", "x := 1\nx[0] = 1\n", _expect(err_sub="2:1:"))
     yield ("an assigned function value keeps the object it was read from as `this`",
            "a := {\"n\": 1, \"f\": fn() {\n    return this.n\n}}\ng := null\ng = a.f\nprint(g())\nxs := [null]\nxs[0] = a.f\nh := xs[0]\nprint(h())\n", _expect("1\n1\n"))
+    yield ("an empty object pattern still needs an object source", "[a, {}] := [1, 2]\n", _expect(err_sub="only objects can be destructured into objects"))
+    yield ("an empty list pattern still needs a list source", "{\"k\": []} := {\"k\": 1}\n", _expect(err_sub="1:"))
